@@ -1,3 +1,8 @@
+(* C04 — dict model: a vendored copy of coq/C06/Model.v (the executable model of
+   traits/trait_dict_object.py: TraitDict) as of the commit this C04 development was proved
+   against.  C04 keeps its own copy so that its invariant proofs (C04/Proofs.v) do not break
+   when C06 extends its op type; the definitions are unchanged.  Executable definitions only.
+   ---- original header follows ---- *)
 (* C06 — executable model of traits/trait_dict_object.py (TraitDict,
    TraitDictObject.notifier) and traits/observation/_dict_change_event.py
    (dict_event_factory).
@@ -26,9 +31,7 @@ Inductive op :=
 | SetDefault (k v : Z)                       (* d.setdefault(k, v); setdefault(k) is v = the atom of None *)
 | Pop (k : Z) (dflt : option Z)              (* d.pop(k) / d.pop(k, dflt) *)
 | PopItem
-| Clear
-| Ctor (asmap : bool) (ps : list (Z * Z)).  (* d = TraitDict(dict(ps) / ps, validators): a new object, the history
-                                               continues on it (for a Dict trait: owner.d = dict(ps) / ps) *)
+| Clear.
 
 (* A notification as a plain notifier receives it: (removed, added, changed). *)
 Definition ev3 := (amap * amap * amap)%type.
@@ -102,20 +105,6 @@ Section WithValidators.
         end
     end.
 
-  (* __init__, l.121-141: value = {self.key_validator(key): self.value_validator(value) for key, value in items} *)
-  Fixpoint ctor_loop (items : list (Z * Z)) (acc : amap) : option amap :=
-    match items with
-    | [] => Some acc
-    | (k, v) :: r =>
-        match kv k with
-        | None => None
-        | Some vk => match vv v with
-                     | None => None
-                     | Some vvv => ctor_loop r (mset vk vvv acc)
-                     end
-        end
-    end.
-
   (* items = other.items() if hasattr(other, 'keys') else other; a mapping
      argument is the dict built from the pairs *)
   Definition items_of (asmap : bool) (ps : list (Z * Z)) : list (Z * Z) :=
@@ -178,11 +167,6 @@ Section WithValidators.
         end
     | Clear =>                                     (* clear, l.234-239 *)
         if mempty m then ok [] [] RNone else ok [] [(m, [], [])] RNone
-    | Ctor asmap ps =>                             (* a failing construction leaves the old object in place *)
-        match ctor_loop (items_of asmap ps) [] with
-        | None => raise TraitError m
-        | Some d => ok d [] RNone                  (* the constructor notifies nobody *)
-        end
     end.
 
   Fixpoint run (m : amap) (ops : list op) : list (op * obs) :=
